@@ -54,6 +54,7 @@ def dispatch (line : String) : String :=
   | "jres" :: rest => (handleJRes rest).getD "BAD-CASE\t0"
   | "juniqbig" :: rest => (handleJUniqBig rest).getD "BAD-CASE\t0"
   | "jlog" :: rest => (handleJLog rest).getD "BAD-CASE\t0"
+  | "arpnil" :: rest => (handleArpNil rest).getD "BAD-CASE\t0"
   | "arpc" :: rest => (handleArpC rest).getD "BAD-CASE\t0"
   | "socks" :: rest => (handleSocks rest).getD "BAD-CASE\t0"
   | "socksio" :: rest => (handleSocksIO rest).getD "BAD-CASE\t0"
